@@ -29,6 +29,7 @@
 (*   phase   Run | Done | Panic                                            *)
 (*   ev      the event of the last step (AdapterTap vocabulary) or tau     *)
 (*   sched   the adapter decisions taken so far   (history, for replay)    *)
+(*   l       position in the recorded trace being validated (InterpTrace)   *)
 (***************************************************************************)
 EXTENDS Sem, Naturals, Json, IOUtils
 
@@ -39,7 +40,8 @@ CONSTANTS Cap,          \* adapter buffer bound (1 = no read-ahead)
           Eager,        \* may an adapter pull inside the resolver call
           MaxRequests   \* the consumer asks for at most this many rows (0 = until the end)
 
-VARIABLES ti, insts, stack, ret, lent, rows, pulled, ncalls, nouter, phase, ev, sched
+VARIABLES ti, insts, stack, ret, lent, rows, pulled, ncalls, nouter, phase, ev, sched,
+          l        \* position in a recorded trace (InterpTrace); constant 1 in model-checking runs. Next leaves l' to the wrapping spec.
 vars == <<ti, insts, stack, ret, lent, rows, pulled, ncalls, nouter, phase, ev, sched>>
 
 Inst == Insts[ti]
@@ -83,7 +85,12 @@ ParamOf(params, n) == IF \E j \in 1..Len(params) : params[j][1] = n
                       THEN LET j == CHOOSE j \in 1..Len(params) : params[j][1] = n IN params[j][2] ELSE Null
 
 (* ------------------------------------------------------------------ the dataset, as the reference adapter resolves it *)
+\* An instance either carries a graph (data computed here, as the reference adapter does) or `dataFromTrace`: then the data is whatever
+\* the recorded adapter returned (replay of a trace without its data source, as interpreter/replay.rs does): the start vertices are
+\* listed in the instance and each YieldInto event carries the outcome the adapter produced for that context.
+FromTrace(x) == x.dataFromTrace
 StartIdsOf(x) ==
+  IF FromTrace(x) THEN x.starts ELSE
   LET ids == x.g.entry[x.ir.rootName]  min == ParamOf(x.ir.rootParams, "min")
   IN IF IsNull(min) THEN ids ELSE SelectSeq(ids, LAMBDA i : ~NumLess(IntV(i), min))
 NbrsOf(v, e, params) ==
@@ -178,7 +185,7 @@ NoLimit == [some |-> FALSE, n |-> 0]
 MinL(a, b) == IF ~a.some THEN b ELSE IF ~b.some THEN a ELSE IF b.n < a.n THEN b ELSE a
 MaxL(a, b) == IF ~a.some THEN b ELSE IF ~b.some THEN a ELSE IF b.n > a.n THEN b ELSE a
 RECURSIVE MaxOfList(_)
-MaxOfList(l) == IF l = <<>> THEN NoLimit ELSE MaxL(Some(ToNat(Head(l))), MaxOfList(Tail(l)))
+MaxOfList(lst) == IF lst = <<>> THEN NoLimit ELSE MaxL(Some(ToNat(Head(lst))), MaxOfList(Tail(lst)))
 MaxLimitOf(x, f) ==
   IF f.arg.k # "var" THEN NoLimit
   ELSE CASE f.op \in {"=", "<="} -> Some(ToNat(x.args[f.arg.n]))
@@ -191,7 +198,7 @@ MinLimitOf(x, f) == IF f.op = ">=" THEN Some(ToNat(x.args[f.arg.n])) ELSE Some(T
 FoldMinRaw(x, fs) ==
   IF fs = <<>> \/ \E j \in 1..Len(fs) : ~(fs[j].arg.k = "var" /\ fs[j].op \in {">=", ">"}) THEN NoLimit
   ELSE LET RECURSIVE Go(_)
-           Go(l) == IF l = <<>> THEN NoLimit ELSE MaxL(MinLimitOf(x, Head(l)), Go(Tail(l)))
+           Go(lst) == IF lst = <<>> THEN NoLimit ELSE MaxL(MinLimitOf(x, Head(lst)), Go(Tail(lst)))
        IN Go(fs)
 \* Stopping at the lower bound is invisible only if nothing observes the count or anything inside the fold:
 \* no output anywhere below the fold, no count output, and no use of a tag on this fold's count anywhere.
@@ -327,7 +334,7 @@ Init ==
   /\ ret = RIdle
   /\ lent = << FALSE >>
   /\ rows = <<>> /\ pulled = 0 /\ ncalls = 0 /\ nouter = 0
-  /\ phase = "Run" /\ ev = Tau /\ sched = <<>>
+  /\ phase = "Run" /\ ev = Tau /\ sched = <<>> /\ l = 1
 
 (* ------------------------------------------------------------------ the consumer of the result iterator *)
 ConsumerStart ==      \* interpret_ir: build the root pipeline
@@ -342,7 +349,7 @@ ConsumerRequest ==
   /\ Top.t = "consumer" /\ Top.pc = "idle"
   /\ MaxRequests = 0 \/ Len(rows) < MaxRequests
   /\ stack' = CallNext(1, Len(RootPlan), "wait")
-  /\ ev' = Ev("Request", 0) /\ Keep(<<ti, insts, ret, lent, rows, pulled, ncalls, nouter, phase, sched>>)
+  /\ ev' = (IF Inst.noRequestMarkers THEN Tau ELSE Ev("Request", 0)) /\ Keep(<<ti, insts, ret, lent, rows, pulled, ncalls, nouter, phase, sched>>)
 ProduceRow ==
   /\ Top.t = "consumer" /\ Top.pc = "wait" /\ ret.t = "some"
   /\ LET c == ret.it.c IN
@@ -397,6 +404,8 @@ Outcome(s, c) ==
   CASE s.fn = "prop"   -> ValOut(Prop(Inst, c.active, s.field))
     [] s.fn = "coerce" -> BoolOut(CanCoerce(c.active, s.to))
     [] s.fn = "nbrs"   -> NbrOut(NbrsOf(c.active, s.name, s.params), 0)
+\* the outcome the recorded adapter produced for the context of the YieldInto event at position l of the trace
+RecordedOutcome == IF l <= Len(Inst.events) /\ Inst.events[l].e = "YieldInto" THEN Inst.events[l].out ELSE NoOut
 IsAdapterFrame == Top.t \in {"call", "next"} /\ Top.k <= Len(PlanTop) /\ StageTop.k = "A"
 CanPull == Len(StTop.buf) < Cap /\ ~StTop.exh
 \* the adapter advances its input iterator (inside the call if Eager; otherwise when asked for an element)
@@ -410,7 +419,7 @@ AdvanceInput ==
   /\ ev' = Ev("Advance", StTop.oc) /\ Keep(<<ti, insts, ret, lent, rows, pulled, ncalls, nouter, phase>>)
 YieldInto ==
   /\ IsAdapterFrame /\ Top.pc = "wait" /\ ret.t = "some"
-  /\ insts' = SetSt(Top.i, Top.k, [StTop EXCEPT !.buf = Append(@, Item(ret.it.c, Outcome(StageTop, ret.it.c)))])
+  /\ insts' = SetSt(Top.i, Top.k, [StTop EXCEPT !.buf = Append(@, Item(ret.it.c, IF FromTrace(Inst) THEN RecordedOutcome ELSE Outcome(StageTop, ret.it.c)))])
   /\ stack' = TopPc(IF Top.t = "call" THEN "start" ELSE "after") /\ ret' = RIdle
   /\ ev' = [Ev("YieldInto", StTop.oc) EXCEPT !.ctx = Proj(ret.it.c)]
   /\ Keep(<<ti, lent, rows, pulled, ncalls, nouter, phase, sched>>)
